@@ -120,6 +120,7 @@ def _collect(root: str, before: dict, skip=('__stdout', '__stderr')) -> dict:
 
 def _child(main_mod, root, cwd, argv, timeout_s, env, trace_hook):
     try:
+        argv = [a.replace('{ROOT}', root) for a in argv]      # absolute spellings of paths inside the scratch directory
         os.chdir(os.path.join(root, cwd))
         so = os.open(os.path.join(root, '__stdout'), os.O_WRONLY | os.O_CREAT | os.O_TRUNC)
         se = os.open(os.path.join(root, '__stderr'), os.O_WRONLY | os.O_CREAT | os.O_TRUNC)
@@ -258,7 +259,7 @@ def run_subprocess(argv, files, cwd='.', timeout_s=20, env=None, hashseed='0', p
         t0 = time.monotonic()
         timed_out = False
         try:
-            p = subprocess.run([python, '-m', 'bespokeasm'] + list(argv), cwd=os.path.join(root, cwd),
+            p = subprocess.run([python, '-m', 'bespokeasm'] + [a.replace('{ROOT}', root) for a in argv], cwd=os.path.join(root, cwd),
                                env=e, stdin=subprocess.DEVNULL, capture_output=True, timeout=timeout_s)
             code, so, se = p.returncode, p.stdout, p.stderr
         except subprocess.TimeoutExpired as te:
